@@ -15,7 +15,8 @@ The executor walks the IR of the chosen entry function, inlining the module's ow
 
 Monitors: (M1) no use of an object that may have been released; (M2) reference balance of the frame at every return;
 (M3) no value obtained from _uncached_* before a havoc-changed() is stored into a dictionary still reachable from
-self afterwards.  Loops do not occur in the analysed functions (checked: a back edge aborts the run as inconclusive).
+self afterwards; (M4) functional contract of the VerifyingBase generation snapshot (verify_changed stores
+tuple(registry.ro)[1:] and one generation per registry; _verify calls changed() iff the generations differ).  Loops do not occur in the analysed functions (checked: a back edge aborts the run as inconclusive).
 """
 import os
 import re
@@ -382,6 +383,7 @@ class Exec:
         self.foreign = 0
         self.epoch = 0
         self.depth = 0
+        self.cmp_log, self.call_log = [], []
         f = self.funcs[self.entry]
         # the object whose method runs: held by the caller for the duration
         self.selfobj = self.new_obj('self', 'self', 1, ext_min=1)
@@ -423,6 +425,41 @@ class Exec:
                 raise Violation('reference-balance', 'immortal %r: frame balance %d, expected %d' % (o, o.frame, want))
         if isinstance(ret, Obj):
             self.use(ret, 'return')
+        # M4: functional contract of the generation snapshot (the Python reference: _verify_ro = registry.ro[1:],
+        # _verify_generations = one entry per registry of _verify_ro)
+        if self.entry == 'verify_changed' and isinstance(ret, Obj):
+            ro = self.selfobj.fields.get(('%struct.VB', (1,)))
+            gens = self.selfobj.fields.get(('%struct.VB', (2,)))
+            so = getattr(ro, 'slice_of', None)
+            if so is None:
+                raise Violation('snapshot', 'verify_changed returns normally with _verify_ro = %r, which is not a slice of tuple(registry.ro)' % (ro,))
+            src, low, high, n = so
+            # the reference slice is read from the AST of the current Python VerifyingBase.changed (VP_IRSYM_SLICE = "lower:upper")
+            ref = os.environ.get('VP_IRSYM_SLICE', '1:')
+            rl, ru = ref.split(':')
+            rl = int(rl or 0)
+            if ru == '':
+                want_high_ok = (n is not None and high == n) or (isinstance(high, int) and high >= (1 << 62))
+            elif int(ru) >= 0:
+                want_high_ok = (high == int(ru))
+            else:
+                want_high_ok = (n is not None and high == n + int(ru))
+            if low != rl or not want_high_ok:
+                raise Violation('snapshot', 'verify_changed stores tuple(registry.ro)[%s:%s] for a resolution order of %s registries; the Python '
+                                            'reference stores ro[%s]' % (low, high, n, ref))
+            if not isinstance(gens, Obj) or getattr(gens, 'size', None) != ro.size:
+                raise Violation('snapshot', '_verify_generations %r has %s entries for %s registries in _verify_ro' % (
+                    gens, getattr(gens, 'size', None), ro.size))
+            filled = sorted(k[1][1] for k in gens.fields if k[0] == '%struct.PyTupleObject')
+            if filled != list(range(ro.size)):
+                raise Violation('snapshot', '_verify_generations has items %r set, expected one per registry (%d)' % (filled, ro.size))
+        if self.entry == '_verify':
+            cmp_ = [r for (fg, r) in self.cmp_log if not fg]
+            chg = [m for (fg, m) in self.call_log if not fg and 'strchanged' in m]
+            if ret == 0 and cmp_ and cmp_[-1] == 1 and not chg:
+                raise Violation('snapshot', '_verify returns 0 although the recorded generations differ and changed() was not called')
+            if cmp_ and cmp_[-1] == 0 and chg:
+                raise Violation('snapshot', '_verify calls changed() although the recorded generations are current')
 
     # ---- interpreter ---------------------------------------------------------------
     def call_internal(self, name, args, top=False):
@@ -768,13 +805,20 @@ def _s_tslice(ex, a, site):
         return None
     t = ex.new_obj('tuple', 'ro-slice', 1, fresh=True)
     t.frame = 0 if ex.foreign else 1
+    src, low, high = a[0], a[1], a[2]
+    n = getattr(src, 'size', None)
+    t.slice_of = (src, low, high, n)
+    if isinstance(n, int) and isinstance(low, int) and isinstance(high, int):
+        t.size = max(0, min(high, n) - min(max(low, 0), n))
     return t
 
 
 @stub('PyObject_RichCompareBool', 'comparison: -1 (error) / 0 / 1; may run Python for exotic operands')
 def _s_rcb(ex, a, site):
     ex.havoc('PyObject_RichCompareBool', site)
-    return int(ex.decide('%s: comparison' % site, ['0', '1', '-1']))
+    r = int(ex.decide('%s: comparison' % site, ['0', '1', '-1']))
+    ex.cmp_log.append((ex.foreign, r))
+    return r
 
 
 @stub('PyTuple_SET_ITEM', 'stores an item, stealing the reference')
@@ -881,6 +925,7 @@ def _call_python(api):
     def fn(ex, a, site):
         meth = a[1].label if len(a) > 1 and isinstance(a[1], Obj) else ''
         epoch_before = ex.epoch
+        ex.call_log.append((ex.foreign, meth))
         plain_attr = api == 'PyObject_GetAttr' and any(x in meth for x in ('str_generation', 'str_registry', 'strro'))
         iter_ro = api == 'PyObject_CallFunctionObjArgs' and isinstance(a[0], Obj) and 'PyTuple_Type' in a[0].label
         if not ((plain_attr or iter_ro) and not ex.opts.get('exotic', True)):
